@@ -4,6 +4,7 @@ import (
 	"context"
 	"fmt"
 	"hash/fnv"
+	"os"
 	"runtime"
 	"runtime/debug"
 	"sort"
@@ -47,7 +48,7 @@ type Run struct {
 	SimTime    time.Duration
 	Leaked     bool // blocked goroutines remained at the end of the bubble
 	Sample     interface{}
-	WantGC     bool // the run allocated a lot: collect before the next one
+	WantGC     bool        // the run allocated a lot: collect before the next one
 	World      interface{} // world-private state, for Classify
 
 	trace     []string
@@ -104,14 +105,14 @@ func (r *Run) Sched(kind, actor string) {
 	r.schedHash = r.schedHash*1099511628211 ^ hash64(kind+"/"+actor)
 }
 
-func (r *Run) Trace() []string     { return r.trace }
-func (r *Run) TraceHash() uint64   { return r.traceHash }
-func (r *Run) SchedPrint() uint64  { return r.schedHash }
-func (r *Run) Probe(name string)   { r.mu.Lock(); r.Probes[name]++; r.mu.Unlock() }
-func (r *Run) Fault(kind string)   { r.mu.Lock(); r.Faults[kind]++; r.mu.Unlock() }
-func (r *Run) State(h uint64)      { r.mu.Lock(); r.States[h] = struct{}{}; r.mu.Unlock() }
-func (r *Run) Failed() bool        { r.mu.Lock(); defer r.mu.Unlock(); return r.Viol != nil }
-func (r *Run) Now() time.Duration  { return time.Since(r.t0) }
+func (r *Run) Trace() []string    { return r.trace }
+func (r *Run) TraceHash() uint64  { return r.traceHash }
+func (r *Run) SchedPrint() uint64 { return r.schedHash }
+func (r *Run) Probe(name string)  { r.mu.Lock(); r.Probes[name]++; r.mu.Unlock() }
+func (r *Run) Fault(kind string)  { r.mu.Lock(); r.Faults[kind]++; r.mu.Unlock() }
+func (r *Run) State(h uint64)     { r.mu.Lock(); r.States[h] = struct{}{}; r.mu.Unlock() }
+func (r *Run) Failed() bool       { r.mu.Lock(); defer r.mu.Unlock(); return r.Viol != nil }
+func (r *Run) Now() time.Duration { return time.Since(r.t0) }
 
 // Failf records the first violation of the run.
 func (r *Run) Failf(clause, format string, a ...interface{}) {
@@ -345,6 +346,12 @@ func Execute(t *testing.T, tape *Tape, traceCap int, fn func(r *Run)) *Run {
 				s := fmt.Sprint(e)
 				if strings.Contains(s, "blocked goroutines remain") {
 					r.Leaked = true
+					if f := os.Getenv("VERIF_LEAKDUMP"); f != "" {
+						// debugging aid: which goroutines stayed behind
+						buf := make([]byte, 1<<22)
+						buf = buf[:runtime.Stack(buf, true)]
+						os.WriteFile(f, append([]byte(s+"\n\n"), buf...), 0o644)
+					}
 					return
 				}
 				r.Failf("harness-panic", "%v", e)
